@@ -1,8 +1,21 @@
 package pql
 
-// C06 — in-process companion for PQL text: arbitrary and token-mutated text into ParseString. The HTTP layer recovers
-// panics of the request goroutine, so a panic here is recorded (class "panic") but is not a failure; a parse that does
-// not finish is (the request goroutine cannot be cancelled and pins a core).
+// C06 — in-process companion for PQL text: arbitrary and token-mutated text into ParseString. The parser reports bad
+// input found by its actions by panicking with one of three known messages, which parser.Parse turns into errors; any
+// other panic is re-raised. Text must be "accepted or rejected with an error", so a panic that leaves ParseString is a
+// failure here (in the server it would be a 500 with a stack trace, and a crash for any caller without recover), and so
+// is a parse that does not finish (the request goroutine cannot be cancelled and pins a core).
+//
+// Panic sites of pql/ast.go and how the generator reaches them (kind "errorsite", class site:<name>):
+//   endConditional: bound literal outside int64 (lower / upper)      site:cond-literal-lo, site:cond-literal-hi
+//   endConditional: strict lower bound == MaxInt64                   site:cond-strict-lo-max
+//   endConditional: strict upper bound == MinInt64                   site:cond-strict-hi-min
+//   validateArgField: duplicate argument                             site:duplicate-arg
+//   unquote: invalid escape in a double-quoted literal               site:invalid-string
+//   addNumVal: integer / decimal literal outside the range           site:num-literal
+// The remaining panics (conditional of wrong length, addField/addVal/addNumVal called out of order) guard invariants of
+// the grammar and cannot be reached from text; the generator also emits the neighbouring representable limits
+// (site:cond-limit-ok), which must parse.
 
 import (
 	"fmt"
@@ -44,15 +57,19 @@ func vc06ParseBounded(text string) (err error, pv interface{}, finished bool) {
 var vc06Pool = []string{
 	"Row(f=1)", "Count(Row(f=1))", "Set(3, f=1)", "Set(\"k\", f='r', 2017-01-01T00:00)", "Union(Row(f=1), Row(f=2))", "TopN(f, Row(g=1), n=2, ids=[1,2])",
 	"SetRowAttrs(f, 1, x=1.5, y=\"é\", z=null)", "Store(Row(f=1), f=7)", "ClearRow(f=7)", "Row(1 < f <= 5)", "Row(f >< [1,5])", "Row(f != null)",
-	"Range(f=1, 2010-01-01T00:00, 2011-01-01T00:00)", "GroupBy(Rows(f), Rows(g), limit=2, filter=Row(h=1))", "Options(Row(f=1), shards=[0,1])", "Rows(f, previous=\"x\")",
+	"Range(f=1, 2010-01-01T00:00, 2011-01-01T00:00)", "Range(9223372036854775807 < f < 3)", "Row(-5 <= f < -9223372036854775808)", "Row(-9223372036854775808 < f < 9223372036854775807)", "GroupBy(Rows(f), Rows(g), limit=2, filter=Row(h=1))", "Options(Row(f=1), shards=[0,1])", "Rows(f, previous=\"x\")",
 }
 
 func TestVerifC06_ParseString(t *testing.T) {
 	defer vkit.Flush()
 	rapid.Check(t, func(t *rapid.T) {
 		var text string
-		kind := rapid.SampledFrom([]string{"mutated", "mutated", "mutated", "random", "nested", "nested-special", "grammar"}).Draw(t, "kind")
+		kind := rapid.SampledFrom([]string{"mutated", "mutated", "mutated", "random", "nested", "nested-special", "grammar", "errorsite"}).Draw(t, "kind")
+		site := ""
+		mustReject := false
 		switch kind {
+		case "errorsite":
+			text, site, mustReject = vc06ErrorSite(t)
 		case "mutated":
 			b := []byte(rapid.SampledFrom(vc06Pool).Draw(t, "base"))
 			n := rapid.IntRange(1, 4).Draw(t, "nmut")
@@ -62,7 +79,7 @@ func TestVerifC06_ParseString(t *testing.T) {
 				case 0:
 					b = append(b[:pos:pos], b[pos+1:]...)
 				case 1:
-					tok := rapid.SampledFrom([]string{"(", ")", ",", "=", "[", "]", "\"", "'", "\x00", "99999999999999999999", "-", "null", "<", "><", " ", "\n", "é", "\xff", "\\", "Store(", "Set("}).Draw(t, "tok")
+					tok := rapid.SampledFrom([]string{"(", ")", ",", "=", "[", "]", "\"", "'", "\x00", "99999999999999999999", "-", "null", "<", "><", " ", "\n", "é", "\xff", "\\", "Store(", "Set(", "9223372036854775807 < ", " < -9223372036854775808", "-9223372036854775808 <= ", " <= 9223372036854775807", "9223372036854775808"}).Draw(t, "tok")
 					b = append(b[:pos:pos], append([]byte(tok), b[pos:]...)...)
 				case 2:
 					b[pos] = rapid.Byte().Draw(t, "byte")
@@ -99,6 +116,9 @@ func TestVerifC06_ParseString(t *testing.T) {
 		c := vkit.NewCase().Key(text)
 		defer c.Done()
 		c.Class("text:" + kind)
+		if site != "" {
+			c.Class("site:" + site)
+		}
 		sample := text
 		if len(sample) > 200 {
 			sample = sample[:200] + "..."
@@ -108,10 +128,16 @@ func TestVerifC06_ParseString(t *testing.T) {
 		if !finished {
 			t.Fatalf("ParseString did not finish within %v on %d bytes of text: %q", vc06ParseLimit, len(text), sample)
 		}
+		if pv != nil {
+			t.Fatalf("ParseString panics (instead of returning an error) on %d bytes of text %q: %v", len(text), sample, pv)
+		}
+		if mustReject && err == nil {
+			t.Fatalf("ParseString accepted %q, which holds a construct without a value (%s)", sample, site)
+		}
+		if site == "cond-limit-ok" && err != nil {
+			t.Fatalf("ParseString rejected %q, whose bounds are representable: %v", sample, err)
+		}
 		switch {
-		case pv != nil:
-			c.Class("panic") // recovered by Handler.ServeHTTP in the server; reported, not judged here
-			c.NT(true)
 		case err != nil:
 			c.Class("rejected")
 			c.NT(!strings.Contains(err.Error(), "line 1 symbol 1 "))
@@ -132,3 +158,58 @@ func TestVerifWitness_DP13(t *testing.T) {
 }
 
 var _ = fmt.Sprint
+
+// vc06ErrorSite builds a query that drives the parser into one of the panic sites of pql/ast.go that user text can
+// reach (see the table at the top), in both strictness forms and at both int64 limits.
+func vc06ErrorSite(t *rapid.T) (text, site string, mustReject bool) {
+	call := rapid.SampledFrom([]string{"Row", "Range", "Count(Row", "Set(1, f=2, ", "TopN(f, Row"}).Draw(t, "sitecall")
+	wrap := func(arg string) string {
+		switch call {
+		case "Count(Row":
+			return "Count(Row(" + arg + "))"
+		case "Set(1, f=2, ":
+			return "Set(1, g=2, " + arg + ")"
+		case "TopN(f, Row":
+			return "TopN(f, Row(" + arg + "), n=1)"
+		}
+		return call + "(" + arg + ")"
+	}
+	sp := rapid.SampledFrom([]string{" ", "", "  "}).Draw(t, "sitesp")
+	lt := func(label string) string { return rapid.SampledFrom([]string{"<", "<="}).Draw(t, label) }
+	small := func(label string) string { return fmt.Sprint(rapid.IntRange(-9, 9).Draw(t, label)) }
+	const max, min = "9223372036854775807", "-9223372036854775808"
+	switch rapid.IntRange(0, 8).Draw(t, "site") {
+	case 0:
+		lo := rapid.SampledFrom([]string{"9223372036854775808", "-9223372036854775809", "99999999999999999999"}).Draw(t, "oor")
+		return wrap(lo + sp + lt("l1") + sp + "f" + sp + lt("l2") + sp + small("hi")), "cond-literal-lo", true
+	case 1:
+		hi := rapid.SampledFrom([]string{"9223372036854775808", "-9223372036854775809", "99999999999999999999"}).Draw(t, "oor")
+		return wrap(small("lo") + sp + lt("l1") + sp + "f" + sp + lt("l2") + sp + hi), "cond-literal-hi", true
+	case 2:
+		hi := rapid.SampledFrom([]string{"3", max, min, "-1"}).Draw(t, "hi")
+		return wrap(max + sp + "<" + sp + "f" + sp + lt("l2") + sp + hi), "cond-strict-lo-max", true
+	case 3:
+		lo := rapid.SampledFrom([]string{"-5", max, min, "0"}).Draw(t, "lo")
+		return wrap(lo + sp + lt("l1") + sp + "f" + sp + "<" + sp + min), "cond-strict-hi-min", true
+	case 4:
+		// the neighbouring limits are representable and must parse
+		lo := rapid.SampledFrom([]string{max + sp + "<=", "9223372036854775806" + sp + "<", min + sp + "<", min + sp + "<="}).Draw(t, "oklo")
+		hi := rapid.SampledFrom([]string{"<=" + sp + min, "<" + sp + "-9223372036854775807", "<" + sp + max, "<=" + sp + max}).Draw(t, "okhi")
+		return wrap(lo + sp + "f" + sp + hi), "cond-limit-ok", false
+	case 5:
+		v := rapid.SampledFrom([]string{"1", `"a"`, "null", "[1,2]", "x"}).Draw(t, "dupv")
+		return wrap("f=" + v + "," + sp + "g=1," + sp + "f=2"), "duplicate-arg", true
+	case 6:
+		lit := rapid.SampledFrom([]string{`"\q"`, `"a\'b"`, `"\x"`, `"\u12"`, `"\400"`, `"\ud800"`}).Draw(t, "badstr")
+		if rapid.Bool().Draw(t, "badpos") && call == "Row" {
+			return "Set(" + lit + ", f=1)", "invalid-string", true
+		}
+		return wrap("f=" + lit), "invalid-string", true
+	default:
+		lit := rapid.SampledFrom([]string{"9223372036854775808", "-9223372036854775809", "18446744073709551616", "1" + strings.Repeat("0", 400) + ".0", "-" + strings.Repeat("9", 330) + "."}).Draw(t, "numoor")
+		if rapid.Bool().Draw(t, "numpos") && call == "Row" {
+			return "Set(" + strings.TrimPrefix(lit, "-") + ", f=1)", "num-literal", true
+		}
+		return wrap("f " + rapid.SampledFrom([]string{"=", ">", "><", "=="}).Draw(t, "numop") + " " + lit), "num-literal", true
+	}
+}
